@@ -1677,6 +1677,77 @@ theorem lam_first_eval (xs : VL) (hl : hasLazyL xs = false) :
     simp [Lam.eval, Lam.passThrough, hasLazy, hl, Lam.evalR, LRes.seq, LRes.force, firstOf, bind, Except.bind,
       pure, Except.pure]
 
+/-! when does an exception raised inside a lambda surface?  Lazy operators return without having applied their
+lambda at all; the exception comes when a consumer reaches the failing element, after the prefix before it.  Eager
+operators (`indexWhere`, `any`, `all`, `toDict`, `groupBy`, `aggregate`...) apply the lambda while they are called. -/
+
+theorem run_select_lazy (f : Lam) (s : LSeq) :
+    runOp (.select f) (.lazy s) = .ok (.lazy (LSeq.mapM f.eval s.items s.err)) := by
+  simp [runOp, runOp1, Op.linear, Obj.it, Obj.iterable?, bind, Except.bind, pure, Except.pure]
+
+theorem run_where_lazy (p : Lam) (s : LSeq) :
+    runOp (.where_ p) (.lazy s) = .ok (.lazy (LSeq.filterM p.test s.items s.err)) := by
+  simp [runOp, runOp1, Op.linear, Obj.it, Obj.iterable?, bind, Except.bind, pure, Except.pure]
+
+theorem run_takeWhile_lazy (p : Lam) (s : LSeq) :
+    runOp (.takeWhile p) (.lazy s) = .ok (.lazy (LSeq.takeWhileM p.test s.items s.err)) := by
+  simp [runOp, runOp1, Op.linear, Obj.it, Obj.iterable?, bind, Except.bind, pure, Except.pure]
+
+theorem run_skipWhile_lazy (p : Lam) (s : LSeq) :
+    runOp (.skipWhile p) (.lazy s) = .ok (.lazy (LSeq.dropWhileM p.test s.items s.err)) := by
+  simp [runOp, runOp1, Op.linear, Obj.it, Obj.iterable?, bind, Except.bind, pure, Except.pure]
+
+/-- a consumer that stops before the failing element never sees the exception: `select(f).take(k)` is the
+    first `k` results when the first failing application is at a position `>= k` -/
+theorem take_before_error (f : Value → R Value) (g : Value → Value) (pre post : VL) (x : Value) (er : Err)
+    (e : Option Err) (hpre : ∀ y ∈ pre, f y = .ok (g y)) (hx : f x = .error er) (k : Nat) (hk : k ≤ pre.length) :
+    (LSeq.mapM f (pre ++ x :: post) e).take k = ⟨(select g pre).take k, none⟩ := by
+  rw [select_map f g pre post x er e hpre hx]
+  simp [LSeq.take, select, hk]
+
+/-- ...and one that goes further gets the whole prefix, then the exception -/
+theorem take_past_error (f : Value → R Value) (g : Value → Value) (pre post : VL) (x : Value) (er : Err)
+    (e : Option Err) (hpre : ∀ y ∈ pre, f y = .ok (g y)) (hx : f x = .error er) (k : Nat) (hk : pre.length < k) :
+    (LSeq.mapM f (pre ++ x :: post) e).take k = ⟨select g pre, some er⟩ := by
+  rw [select_map f g pre post x er e hpre hx]
+  have h1 : ¬ k ≤ pre.length := by omega
+  simp only [LSeq.take, select, List.length_map, h1, ↓reduceIte]
+  rw [List.take_of_length_le (by simp; omega)]
+
+/-- an eager search (`indexWhere`, `any`, `all`, `in`): the exception of the predicate at the first element that
+    is reached surfaces while the operator runs -/
+theorem findM_error_position (p : Value → R Bool) (i : Nat) (pre post : VL) (x : Value) (er : Err) (e : Option Err)
+    (hpre : ∀ y ∈ pre, p y = .ok false) (hx : p x = .error er) :
+    LSeq.findM p i (pre ++ x :: post) e = .error er := by
+  induction pre generalizing i with
+  | nil => simp [LSeq.findM, hx, bind, Except.bind]
+  | cons y ys ih =>
+    have hy := hpre y (List.mem_cons_self ..)
+    simp only [List.cons_append, LSeq.findM, hy, bind, Except.bind]
+    simpa using ih (i + 1) (fun z hz => hpre z (List.mem_cons_of_mem _ hz))
+
+theorem run_indexWhere_eager (p : Lam) (pre post : VL) (x : Value) (er : Err)
+    (hpre : ∀ y ∈ pre, p.test y = .ok false) (hx : p.test x = .error er) :
+    runOp (.indexWhere p) (.lazy ⟨pre ++ x :: post, none⟩) = .error er := by
+  have := findM_error_position p.test 0 pre post x er none hpre hx
+  simp [runOp, runOp1, Op.linear, Obj.it, Obj.iterable?, bind, Except.bind, this]
+
+/-- non-vacuity of the hypotheses of `select_map` / `take_before_error` / `take_past_error`: `$.first()` over
+    `[[1], [], [3]]` succeeds on the prefix `[[1]]` and raises StopIteration on `[]` -/
+example : LSeq.mapM (Lam.first .arg none).eval ([tuple [int 1]] ++ tuple [] :: [tuple [int 3]]) none
+    = ⟨[int 1], some .stopIteration⟩ :=
+  select_map _ (fun _ => int 1) [tuple [int 1]] [tuple [int 3]] (tuple []) .stopIteration none
+    (by intro y hy; simp at hy; subst hy; rfl) rfl
+example : (LSeq.mapM (Lam.first .arg none).eval ([tuple [int 1]] ++ tuple [] :: [tuple [int 3]]) none).take 1
+    = ⟨[int 1], none⟩ :=
+  take_before_error _ (fun _ => int 1) [tuple [int 1]] [tuple [int 3]] (tuple []) .stopIteration none
+    (by intro y hy; simp at hy; subst hy; rfl) rfl 1 (by simp)
+/-- non-vacuity of `run_indexWhere_eager`: `[[1], [], [3]].indexWhere($.first() > 2)` raises while it is called -/
+example : runOp (.indexWhere (.gt (.first .arg none) 2)) (.lazy ⟨[tuple [int 1]] ++ tuple [] :: [tuple [int 3]], none⟩)
+    = .error .stopIteration :=
+  run_indexWhere_eager _ [tuple [int 1]] [tuple [int 3]] (tuple []) .stopIteration
+    (by intro y hy; simp at hy; subst hy; rfl) rfl
+
 /-! the demonstrations of the two lambda-boundary defects, on the model -/
 
 /-- `[[1, 2], [1, 2]].select($.where($ > 1))` is `[[2], [2]]`: the second, equal element gets its own result -/
